@@ -7,6 +7,8 @@ from vlib import Check, build
 
 from checks import utfcommon as uc
 
+BOMS = {"Utf8": b"\xef\xbb\xbf", "Utf16le": b"\xff\xfe", "Utf16be": b"\xfe\xff", "Utf32le": b"\xff\xfe\x00\x00", "Utf32be": b"\x00\x00\xfe\xff"}
+
 MC_CFG = """SPECIFICATION FairSpec
 CONSTANTS
   Cps = %(cps)s
@@ -21,31 +23,84 @@ PROPERTY Terminates
 """
 
 
+WRITER_CFG = """SPECIFICATION Spec
+CONSTANTS
+  MaxWrites = %(n)d
+  ClearBefore = %(clear)s
+  KeepHist = TRUE
+INVARIANTS EmittedAgree StepAccepted %(export)s
+"""
+
+DETECT_CFG = """SPECIFICATION Spec
+CONSTANTS
+  Cps = %(cps)s
+  MaxText = %(maxtext)d
+  Preambles = {0, 1, 3, 16}
+  PreByte = 35
+  FixDetect = TRUE
+  SeekFromOrig = %(seek)s
+  TolerateNul = TRUE
+INVARIANTS PositionCorrect RestIsText DetectionCorrect
+"""
+
+
 def leg_mc(chk, tier):
-    """M => A exhaustively for the repaired variant; each recorded deviation must produce its counterexample."""
+    """M => A exhaustively for the current code variant (reader, writer, stream detection); each recorded deviation /
+    modelled wrong variant must produce its counterexample.  All TLC runs of this leg are started together.
+    Returns the writer call sequences exported by TLC (path mode)."""
     if tier == "quick":
         confs = [dict(cps="{65, 233, 8364, 128512, 0}", maxtext=2, chunks="{8}")]
     else:
         confs = [dict(cps="{65, 233, 8364, 128512, 0, 65279}", maxtext=3, chunks="{8, 12}"),
                  dict(cps="{65, 128512, 1114111}", maxtext=4, chunks="{8}")]
+    jobs, meta = [], []
     for k, c in enumerate(confs):
         cfg = uc.write_cfg("mc_es_%d.cfg" % k, MC_CFG % dict(c, tail="TRUE", detect="TRUE", nul="TRUE"))
-        r = vlib.tlc("MC_EncodedStream", cfg=cfg, coverage=True, timeout=1700, workers=8, xmx="6g")
-        chk.add_tlc("MC_EncodedStream M=>A safety+liveness (repaired variant)", r, c)
-        zero = r.coverage_zero_actions()
-        if zero:
-            raise vlib.MachineryError("vacuity: actions never taken in MC_EncodedStream: %s" % zero)
+        jobs.append(dict(module="MC_EncodedStream", cfg=cfg, coverage=True, timeout=1700, workers=6, xmx="6g"))
+        meta.append(("MC_EncodedStream M=>A safety+liveness (repaired variant)", c, None, True))
     small = dict(cps="{65, 233, 0}", maxtext=2, chunks="{8}")
     expect = [("Dev_EncodedStreamSubUnitTailLivelock", dict(tail="FALSE", detect="TRUE", nul="TRUE"), 13, "Temporal property Terminates was violated"),
               ("Dev_DetectEncodingLastUnitIgnored", dict(tail="TRUE", detect="FALSE", nul="TRUE"), 12, "Invariant DetectionCorrect is violated"),
               ("Dev_DetectEncodingConfusedByNul", dict(tail="TRUE", detect="TRUE", nul="FALSE"), 12, "Invariant DetectionCorrect is violated")]
     for dev, flags, rc, msg in expect:
         cfg = uc.write_cfg("mc_es_%s.cfg" % dev, MC_CFG % dict(small, **flags))
-        r = vlib.tlc("MC_EncodedStream", cfg=cfg, timeout=900, workers=4, allow=(rc,))
-        if msg not in r.out:
-            raise vlib.MachineryError("model with %s enabled did not produce the expected counterexample (%s)" % (dev, msg))
-        chk.cov.setdefault("model_level_counterexamples", {})[dev] = msg
-        chk.add_tlc("MC_EncodedStream with deviation %s (counterexample expected)" % dev, r, flags)
+        jobs.append(dict(module="MC_EncodedStream", cfg=cfg, timeout=900, workers=2, allow=(rc,)))
+        meta.append(("MC_EncodedStream with deviation %s (counterexample expected)" % dev, flags, (dev, msg), False))
+    # writer: M (scratch string) => A (emitted bytes), path mode exports every sequence of writes
+    nw = 2 if tier == "quick" else 3
+    cfg = uc.write_cfg("mc_writer.cfg", WRITER_CFG % dict(n=nw, clear="TRUE", export="Export"))
+    jobs.append(dict(module="MC_EncodedWriter", cfg=cfg, coverage=True, timeout=900, workers=2))
+    meta.append(("MC_EncodedWriter M=>A, all sequences of %d writes (accepted/rejected fragments)" % nw, dict(MaxWrites=nw), None, True))
+    cfg = uc.write_cfg("mc_writer_leak.cfg", WRITER_CFG % dict(n=2, clear="FALSE", export=""))
+    jobs.append(dict(module="MC_EncodedWriter", cfg=cfg, timeout=900, workers=2, allow=(12,)))
+    meta.append(("MC_EncodedWriter, scratch cleared only after a successful write (counterexample expected)", dict(ClearBefore=False),
+                 ("Var_WriterScratchLeak", "Invariant EmittedAgree is violated"), False))
+    # DetectEncoding(istream&, skip): stream position as a state variable
+    dc = dict(cps="{65, 233, 128512, 0}", maxtext=2) if tier == "quick" else dict(cps="{65, 233, 8364, 128512, 0, 65279}", maxtext=3)
+    cfg = uc.write_cfg("mc_detect.cfg", DETECT_CFG % dict(dc, seek="TRUE"))
+    jobs.append(dict(module="MC_DetectStream", cfg=cfg, coverage=True, timeout=1200, workers=4))
+    meta.append(("MC_DetectStream position/detection after a consumed preamble", dc, None, True))
+    cfg = uc.write_cfg("mc_detect_beg.cfg", DETECT_CFG % dict(cps="{65, 233}", maxtext=1, seek="FALSE"))
+    jobs.append(dict(module="MC_DetectStream", cfg=cfg, timeout=900, workers=2, allow=(12,)))
+    meta.append(("MC_DetectStream, seek from the beginning of the stream (counterexample expected)", dict(SeekFromOrig=False),
+                 ("Var_DetectSeekFromBeginning", "Invariant PositionCorrect is violated"), False))
+    res = vlib.tlc_parallel(jobs)
+    wseq = []
+    for r, (label, consts, exp, vac) in zip(res, meta):
+        if exp and exp[1] not in r.out:
+            raise vlib.MachineryError("model variant %s did not produce the expected counterexample (%s)" % exp)
+        if exp:
+            chk.cov.setdefault("model_level_counterexamples", {})[exp[0]] = exp[1]
+        if vac:
+            zero = r.coverage_zero_actions()
+            if zero:
+                raise vlib.MachineryError("vacuity: actions never taken (%s): %s" % (label, zero))
+        chk.add_tlc(label, r, consts)
+        if label.startswith("MC_EncodedWriter M=>A"):
+            wseq = r.printed("GEN")
+    if not wseq:
+        raise vlib.MachineryError("MC_EncodedWriter exported no write sequences")
+    return wseq
 
 
 def gen_jobs(tier):
@@ -62,7 +117,8 @@ def gen_jobs(tier):
 def run_check(tier):
     uc.use_known_findings_override()
     chk = Check("C13", tier)
-    chk.cov["rule"] = ("cases = reader runs (byte stream x truncation point x target char type x policy x chunk size) + writer runs, "
+    chk.cov["rule"] = ("cases = reader runs (byte stream x truncation point x target char type x policy x chunk size) + writer runs and "
+                       "writer call sequences + DetectEncoding(stream) runs behind a preamble + CSV stream loads (length sweep around chunk multiples), "
                        "executed on the real CEncodedStreamReader/Writer and judged by Trace_EncodedStream; "
                        "distinct = distinct (scheme, BOM, text, truncation point, chunk size)")
     chk.assumptions += ["detection is demanded when the BOM is complete or (no BOM) the first character is complete, ASCII and not NUL, "
@@ -70,10 +126,10 @@ def run_check(tier):
                         "content is judged when the detected scheme is the written one; same-width targets pass code units through "
                         "(an incomplete final sequence is copied or handled per policy)",
                         "libstdc++ istream::read semantics as modelled in EncodedStream.tla (validated: window offsets after every call)",
-                        "CSV/JSON/XML/YAML stream entry points are not driven by this check"]
+                        "of the archive stream entry points only CSV is driven here (JSON/XML stream loading of UTF-16/32 belongs to C08; YAML is not built)"]
     ph = chk.cov.setdefault('phase_s', {})
     t0 = time.time()
-    leg_mc(chk, tier)
+    wseq = leg_mc(chk, tier)
     ph['mc'] = round(time.time() - t0, 1)
     t0 = time.time()
     # --- scenarios from the specification
@@ -82,8 +138,13 @@ def run_check(tier):
         out = os.path.join(vlib.scratch(), "c13scn-%d.ndjson" % n)
         wout = os.path.join(vlib.scratch(), "c13wscn.ndjson") if n == 0 else ""
         outs.append(out)
+        # the first job of each chunk size also writes the CSV documents for that chunk size; job 0 the detect scenarios
+        first_of_c = all(j[0] != C for j in gen_jobs(tier)[:n])
+        csvout = os.path.join(vlib.scratch(), "c13csv-%d.ndjson" % C) if first_of_c else ""
+        dout = os.path.join(vlib.scratch(), "c13det.ndjson") if n == 0 else ""
         jobs.append(dict(module="Gen_EncodedStream", cfg="Gen_EncodedStream.cfg", workers=1, timeout=900, xmx="3g",
-                         env={"C": C, "FLO": lo, "FHI": hi, "CLASSES": cl, "TAILS": tl, "OUT": out, "WOUT": wout}))
+                         env={"C": C, "FLO": lo, "FHI": hi, "CLASSES": cl, "TAILS": tl, "OUT": out, "WOUT": wout,
+                              "CSVOUT": csvout, "CSVMODE": tier if csvout else "none", "DOUT": dout, "DMODE": tier if dout else "none"}))
     res = vlib.tlc_parallel(jobs)
     rows = []
     for out, r in zip(outs, res):
@@ -108,23 +169,49 @@ def run_check(tier):
     wscn = os.path.join(vlib.scratch(), "c13wscn.ndjson")
     ph['gen'] = round(time.time() - t0, 1)
     t0 = time.time()
+    # CSV documents (per chunk size), DetectEncoding(stream) scenarios, writer call sequences
+    csvrows = {}
+    for C in (32, 256):
+        got = vlib.read_ndjson(os.path.join(vlib.scratch(), "c13csv-%d.ndjson" % C))
+        for i, r in enumerate(got):
+            r["id"] = "csv%d-%d" % (C, i)
+        # short-read stream buffers on a seeded subset
+        got += [dict(r, id=r["id"] + "short7", kind="short7") for r in uc.pick(got, 100 if tier == "quick" else 600)]
+        csvrows[C] = got
+    chk.cov["generated_csv_documents"] = {str(C): len(v) for C, v in csvrows.items()}
+    detrows = vlib.read_ndjson(os.path.join(vlib.scratch(), "c13det.ndjson"))
+    for i, r in enumerate(detrows):
+        r["id"] = "det%d" % i
+    chk.cov["generated_detect_scenarios"] = len(detrows)
+    for i, r in enumerate(wseq):
+        r["id"] = "wseq%d" % i
+    chk.cov["generated_write_sequences"] = len(wseq)
+    csv256 = os.path.join(vlib.scratch(), "c13-csv256.ndjson")
+    csv32 = os.path.join(vlib.scratch(), "c13-csv32.ndjson")
+    dscn = os.path.join(vlib.scratch(), "c13-det.ndjson")
+    wsscn = os.path.join(vlib.scratch(), "c13-wseq.ndjson")
+    vlib.write_ndjson(csv256, csvrows[256])
+    vlib.write_ndjson(csv32, csvrows[32])
+    vlib.write_ndjson(dscn, detrows)
+    vlib.write_ndjson(wsscn, wseq)
     # --- execution on the real code
-    exe = build("encstream_harness", ["encstream_harness.cpp"], groups=())
+    exe = build("encstream_harness", ["encstream_harness.cpp"], groups=("csv",))
     lines = []
-    for args in (["read", scn], ["write", wscn]):
+    for args in (["read", scn], ["write", wscn], ["writeseq", wsscn], ["detect", dscn], ["csv", csv256]):
         p = vlib.run([exe] + args, timeout=1500, check=False)
         if p.returncode not in (0, 43):
             raise vlib.MachineryError("encstream_harness %s failed (exit %d): %s" % (args[0], p.returncode, p.stderr[-2000:]))
         lines += [l for l in p.stdout.splitlines() if l.strip()]
     # the verification hook BITSERIALIZER_VERIF_ENC_CHUNK_SIZE: default template argument = 32
-    exe32 = build("encstream_harness_hook32", ["encstream_harness.cpp"], groups=(), defines=["BITSERIALIZER_VERIF_ENC_CHUNK_SIZE=32"])
+    exe32 = build("encstream_harness_hook32", ["encstream_harness.cpp"], groups=("csv",), defines=["BITSERIALIZER_VERIF_ENC_CHUNK_SIZE=32"])
     hook = [dict(r, id=r["id"] + "hook") for r in uc.pick([r for r in rows if r["C"] == 32], 60 if tier == "quick" else 300)]
     hscn = os.path.join(vlib.scratch(), "c13-hook.ndjson")
     vlib.write_ndjson(hscn, hook)
-    p = vlib.run([exe32, "read", hscn], timeout=900, check=False)
-    if p.returncode not in (0, 43):
-        raise vlib.MachineryError("encstream_harness (hook build) failed (exit %d): %s" % (p.returncode, p.stderr[-2000:]))
-    lines += [l for l in p.stdout.splitlines() if l.strip()]
+    for args in (["read", hscn], ["csv", csv32]):
+        p = vlib.run([exe32] + args, timeout=900, check=False)
+        if p.returncode not in (0, 43):
+            raise vlib.MachineryError("encstream_harness (hook build) %s failed (exit %d): %s" % (args[0], p.returncode, p.stderr[-2000:]))
+        lines += [l for l in p.stdout.splitlines() if l.strip()]
     for l in [l for l in lines if l.startswith('{"e":')]:
         chk.fail("a reader/writer call did not return (watchdog): %s" % l[:300], {"leg": "c13", "obs": json.loads(l)})
     lines = [l for l in lines if not l.startswith('{"e":')]
@@ -138,14 +225,17 @@ def run_check(tier):
     for l in lines:
         t = json.loads(l)
         byid[t["id"]] = t
-        nruns += len(t["runs"])
+        nruns += len(t["runs"]) if "runs" in t else max(len(t.get("calls", [])) - 1, 1)
     chk.add_cases(nruns, distinct_keys=((t.get("e"), t.get("bom"), json.dumps(t.get("cps", t.get("parts"))), t.get("keep"), t.get("C")) for t in byid.values()),
                   validated=checked)
     chk.sample({"leg": "c13", "record": byid["s%d/%d" % (len(rows) // 2, rows[len(rows) // 2]["keeps"][-1])]})
     full = {r["id"]: len(r["bytes"]) for r in rows}
-    rd = [t for t in byid.values() if "cps" in t]
+    rd = [t for t in byid.values() if "cps" in t and "det" not in t]
     chk.cov["domain_profile"] = {
-        "reader_records": len(rd), "writer_records": len(byid) - len(rd),
+        "reader_records": len(rd), "writer_records": sum(1 for t in byid.values() if "parts" in t),
+        "writer_sequence_records": sum(1 for t in byid.values() if "wseq" in t), "detect_stream_records": sum(1 for t in byid.values() if "det" in t),
+        "csv_stream_records": sum(1 for t in byid.values() if "csv" in t),
+        "csv_streams_with_length_multiple_of_chunk": sum(1 for t in byid.values() if "csv" in t and (t["len"] - (len(BOMS[t["e"]]) if t["bom"] else 0)) % t["C"] == 0),
         "with_bom": sum(1 for t in rd if t["bom"]),
         "bomless_first_char_ascii": sum(1 for t in rd if not t["bom"] and t["cps"] and 1 <= t["cps"][0] <= 127),
         "whole_stream": sum(1 for t in rd if full.get(t["id"].split("/")[0].replace("short1", "").replace("short7", "").replace("hook", "")) == t["keep"]),
@@ -156,7 +246,12 @@ def run_check(tier):
     for b in bad:
         t = byid.get(b["id"])
         if t and b["id"] not in slim:
-            slim[b["id"]] = dict(t, u=t.get("cps"), tw=None)
+            if "csv" in t:
+                slim[b["id"]] = dict(t, u="CSV %s%s, %d bytes, chunk %d, final break %s" % (t["e"], "+BOM" if t["bom"] else "", t["len"], t["C"], t["fb"]), tw=None)
+            elif "wseq" in t:
+                slim[b["id"]] = dict(t, u={"scheme": t["e"], "source_width": t["sw"], "skip": t["skip"], "fragments": t["frags"]}, tw=None)
+            else:
+                slim[b["id"]] = dict(t, u=t.get("cps"), tw=None)
     uc.report_bad(chk, bad, slim, "C13")
     return chk.finish()
 
